@@ -95,6 +95,11 @@ package mvp6_0
 //@   loop 0: exit executeUnitsIdle(m)
 //@   loop 0: exit cycle >= 1
 //@   loop 1: invariant cycle >= 1 && wired(m)
+//@   -- (C03; F36) several units can request a flush in the same cycle: the OLDEST instruction
+//@   -- decides from where (from) and to where (pc); a younger, wrong-path request changes nothing
+//@   loop 1: step f && (!prev(flush) || fp < prev(from)) ==> from == fp && pc == p
+//@   loop 1: step !(f && (!prev(flush) || fp < prev(from))) ==> from == prev(from) && pc == prev(pc)
+//@   loop 1: step flush == (prev(flush) || f)
 //@   loop 2: invariant cycle >= 1 && wired(m)
 //@   loop 3: invariant cycle >= 1 && wired(m)
 //@   loop 4: invariant cycle >= 1 && wired(m)
